@@ -37,6 +37,9 @@ type GroupingAggregator interface {
 	Interval() timeutil.Interval
 	// Fields returns all fields.
 	Fields() []field.Name
+	// AddAggregatorSpecs adds the aggregator specs of fields which the aggregator does not know yet
+	// (partial results of different nodes may carry different fields).
+	AddAggregatorSpecs(aggSpecs AggregatorSpecs)
 }
 
 // groupingAggregator implements GroupingAggregator interface.
@@ -63,6 +66,28 @@ func NewGroupingAggregator(
 		timeRange:     timeRange,
 		aggregates:    make(map[string]FieldAggregates),
 		fields:        make(map[field.Name]field.Name),
+	}
+}
+
+// AddAggregatorSpecs adds the aggregator specs of fields which the aggregator does not know yet.
+func (ga *groupingAggregator) AddAggregatorSpecs(aggSpecs AggregatorSpecs) {
+	for _, aggSpec := range aggSpecs {
+		exist := false
+		for _, spec := range ga.aggSpecs {
+			if spec.FieldName() == aggSpec.FieldName() {
+				exist = true
+				break
+			}
+		}
+		if exist {
+			continue
+		}
+		ga.aggSpecs = append(ga.aggSpecs, aggSpec)
+		// groups which are created before need aggregate the new field too
+		for tags, aggregates := range ga.aggregates {
+			ga.aggregates[tags] = append(aggregates,
+				NewMergeSeriesAggregator(ga.interval, ga.intervalRatio, ga.timeRange, aggSpec))
+		}
 	}
 }
 
